@@ -788,6 +788,8 @@ class ExprMixin:
             sq = Seq(it.n, it.at)
             if getattr(it, "key_pred", None) is not None:
                 sq.key_pred = it.key_pred
+            if getattr(it, "filtered_dict", None) is not None:
+                sq.filtered_dict = it.filtered_dict
             return sq
         if isinstance(it, sv.STup):
             return Seq(z3.IntVal(len(it.items)), self.list_of(list(it.items)).at)
